@@ -1315,7 +1315,9 @@ impl Value {
         let slice = PaddedSliceRead::new(buffer.as_mut_slice());
         let mut parser = Parser::new(slice).with_config(cfg);
         let mut vis = DocumentVisitor::new(json.len(), smut);
-        parser.parse_dom(&mut vis)?;
+        if let Err(err) = parser.parse_dom(&mut vis) {
+            return Err(err.rebase(json));
+        }
         let idx = parser.read.index();
         // the value must end inside the input, not inside the padding
         if idx > json.len() {
